@@ -280,6 +280,54 @@ structure Prog where
   unregisterOrder : List String
   handlers : List (Meth × HStmt)
 
+/-! ### the wildcard / metadata branch of `register` and `_new_trait_added` -/
+
+/-- The module-level metadata filter functions, by what their body tests. -/
+inductive Filter where
+  | notNone | isNone | notEvent
+  deriving DecidableEq, Repr
+
+/-- The `if last == "*":` branch of `register` as data (everything else of its shape is fixed by the translator). -/
+structure Wild where
+  /-- `if self.is_anytrait:` comes first: `self.active[new] = [("", ANYTRAIT_LISTENER)]`, then
+  `return self._register_anytrait(new, "", False)` -/
+  anytraitFirst : Bool
+  /-- `{"type": <f>}` -/
+  baseFilter : Filter
+  /-- `metadata[self.metadata_name] = <f>` under `self.metadata_defined` / otherwise -/
+  definedFilter : Filter
+  undefinedFilter : Filter
+  /-- … only `if self.metadata_name != ""` -/
+  metaOnlyIfNamed : Bool
+  /-- the prefix filter `name == aname[:n]` only `if name != ""` -/
+  prefixOnlyIfNonEmpty : Bool
+  /-- `new.on_trait_change(self._new_trait_added, "trait_added")` -/
+  hooksTraitAdded : Bool
+  /-- `_new_trait_added` classifies the new trait by `handler.default_value_type`, the attribute `register` reads -/
+  lateUsesDefaultValueType : Bool
+
+/-- What the listener looks at of a trait of the object. -/
+structure TInfo where
+  name : Nat
+  hasPrefix : Bool          -- the trait name starts with the item's prefix
+  isEvent : Bool            -- `trait.type == "event"`
+  metaSet : Bool            -- the item's metadata attribute of the trait is not None
+  dvt : DVT
+
+def Filter.holds (f : Filter) (t : TInfo) (onType : Bool) : Bool :=
+  match f with
+  | .notNone => if onType then true else t.metaSet
+  | .isNone => if onType then false else !t.metaSet
+  | .notEvent => if onType then !t.isEvent else true
+
+/-- The traits `register` selects for a wildcard item (`names` after both filters). -/
+def Wild.selected (W : Wild) (metaNamed metaDefined prefixNonEmpty : Bool) (ts : List TInfo) : List TInfo :=
+  ts.filter (fun t =>
+    W.baseFilter.holds t true &&
+    (if W.metaOnlyIfNamed && !metaNamed then true
+     else (if metaDefined then W.definedFilter else W.undefinedFilter).holds t false) &&
+    (if W.prefixOnlyIfNonEmpty && !prefixNonEmpty then true else t.hasPrefix))
+
 /-- `trait.handler.default_value_type` of the link traits of the fragment, by the names used in
 `type_map` (`Instance` has `DefaultValue.constant`, which is not in the table). -/
 def dvtOf : Attr → DVT
@@ -295,6 +343,15 @@ def regBody (P : Prog) (dvt : DVT) : Option Stmt :=
   let name := (lookup P.typeMap dvt).getD P.simpleListener
   let name := (lookup P.aliases name).getD name
   lookup P.regMethods name
+
+/-- The `_register_<kind>` method `register` uses for a trait … -/
+def regKind (P : Prog) (dvt : DVT) : RegName :=
+  let name := (lookup P.typeMap dvt).getD P.simpleListener
+  (lookup P.aliases name).getD name
+
+/-- … and the one `_new_trait_added` uses for a trait added later. -/
+def lateKind (P : Prog) (W : Wild) (dvt : DVT) : RegName :=
+  if W.lateUsesDefaultValueType then regKind P dvt else P.simpleListener
 
 def typeNum (P : Prog) : LType → Nat
   | .any => P.anyListener
